@@ -15,7 +15,8 @@ FUNCS = [('modeling.py', 'contracts.py.lin_spec', '_lin._addterm'),
          ('modeling.py', 'contracts.py.function_spec', '_function.__isub__'),
          ('modeling.py', 'contracts.py.function_index_spec', 'sum'),
          ('modeling.py', 'contracts.py.function_index_spec',
-          '_function.__getitem__')]
+          '_function.__getitem__'),
+         ('modeling.py', 'contracts.py.keytolist_spec', '_keytolist')]
 
 
 class Battery:
@@ -50,6 +51,11 @@ class Battery:
                 self.err = 'sum / index oracle made only %s comparisons' % (
                     cnt.get('sum-index'),)
                 self.result = None
+            if self.result is not None and not self.result.get(
+                    'key-value') and cnt.get('keytolist', 0) < 100:
+                self.err = '_keytolist oracle made only %s comparisons' % (
+                    cnt.get('keytolist'),)
+                self.result = None
             if self.result is None:
                 self.err = 'battery produced no result (exit %s): %s' % (
                     p.returncode, (p.stderr or p.stdout)[-1500:])
@@ -77,6 +83,8 @@ def make_replayer():
             want = ['iaddsub-value']
         if ob.kind.startswith('sum-'):
             want = ['sum-value']
+        if ob.kind.startswith('key-'):
+            want = ['key-value']
         if ob.kind.startswith('index-'):
             want = ['index-value', 'index-fresh', 'index-refuses']
         if ob.kind == 'len-value':
@@ -118,6 +126,27 @@ def run(report, tier, seed):
         report.add(Ob('lin_spec:slice-lemma:' + name, 'slice-lemma', status,
                       text, 'contracts/py/lin_spec.py', by=['z3'] if
                       status == 'proved' else [], detail=detail))
+    from contracts.py import keytolist_spec
+    for name, text, hyp, goal in keytolist_spec.filter_lemma():
+        t0 = time.time()
+        s = z3.Solver()
+        s.set('timeout', 20000)
+        for h in hyp:
+            s.add(h)
+        status, detail = 'undecided', None
+        if s.check() != z3.unsat:
+            s.add(z3.Not(goal))
+            r = s.check()
+            status = 'proved' if r == z3.unsat else (
+                'refuted' if r == z3.sat else 'undecided')
+        else:
+            detail = 'vacuous hypotheses'
+        report.solver_s += time.time() - t0
+        report.add(Ob('keytolist_spec:slice-lemma:filter-' + name,
+                      'slice-lemma', status, 'count of the entries that '
+                      'pass a filter: ' + text,
+                      'contracts/py/keytolist_spec.py', by=['z3'] if
+                      status == 'proved' else [], detail=detail))
     report.replayer = make_replayer()
     report.floor = 8
     report.extra['explanation'] = (
@@ -143,7 +172,8 @@ def run(report, tier, seed):
         'len(f); a term is a _minmax -- max in the convex list, min in the '
         'concave one -- or a length-1 _sum_minmax over the components of '
         'such a _minmax); _keytolist returns a list of indices in '
-        '[0, len(f)); +part copies, part[l] gathers, n * part scales, '
+        '[0, len(f)) (its own contract, keytolist_spec.py, for int and '
+        'list keys; slices by slice.indices / range: library); +part copies, part[l] gathers, n * part scales, '
         'builtins.sum adds the entries; the values of _minmax / _sum_minmax '
         'objects are uninterpreted functions of (max or min, function list)',
         'requires: the representation invariant of _lin for the coefficient '
